@@ -64,6 +64,13 @@ def run(ctx):
     # per-call heap account (checks/c01.py, harness/str_replay.c)
     from checks import c01
     c01.heap_families(ctx)
+    # mbuff: constructors under read-fault schedules (short read / EINTR / EAGAIN / ECONNRESET / EIO at the k-th call on files
+    # and pipes) recorded with the heap balance on and validated by TLC against MBuffObjTrace (checks/c07.py): a refused
+    # constructor must leave nothing allocated
+    import random
+    from checks import c07
+    cnt = c07.record_and_validate(ctx, c07.harness(ctx), c07.fault_execs(random.Random(ctx.seed), ctx.tier == "quick"), tag="c06-mbuff-faults")
+    ctx.cov["mbuff_fault_executions"] = cnt if isinstance(cnt, (int, dict)) else str(cnt)
     ctx.cov["exhaustive"] = True
     ctx.cov["rule"] = "every transition of Ownership.tla in scope, once per container kind and class, with heap balance per script"
     ctx.assumptions += ["objects are spif_str; ASan build of the current tree (clang -O1)"]
